@@ -1,8 +1,8 @@
 SPECIFICATION Spec
 CONSTANTS
-  MaxGens = 6
+  MaxGens = 5
   MinInit = 5
-  Lvls = {2, 3, 4}
+  Lvls = {1, 2, 3, 4}
   Shapes <- ShapesSmall
   Tombs = {FALSE}
   MaxEnv = 1
